@@ -156,7 +156,8 @@ Exit ==
   /\ CASE pc = "exit_usage"   -> Finish(0, "usage")
        [] pc = "exit_version" -> Finish(0, "version")
        [] pc = "exit_error"   -> Finish(1, "none")
-       [] pc = "report"       -> Finish(0, "report")
+       [] pc = "report"       -> \/ Finish(0, "report")
+                                 \/ Finish(1, "none")      \* the report could not be written (stdout: disk full ...)
        [] OTHER -> FALSE
   /\ UNCHANGED <<opts, repo, nver, ncfg, p1, p1fail, made, failed>>
 \* a configuration value that is present but unusable, a reference filter that cannot be built
